@@ -28,6 +28,8 @@ def cases(tier, rng):
     if len(plans) > 6000: rng.shuffle(plans); plans = plans[:6000]
     for seq in plans:
         yield (seq_scenario(rng, menu, ents, seq), 'exhaustive-%d' % n)
+    for x in device_cases(tier, rng):
+        yield x
     for _ in range(3000 if tier == 'thorough' else 300):
         menu = pick_menu(rng, rng.randint(2, 4))
         ents = [0, 1, 2]
@@ -38,16 +40,38 @@ def cases(tier, rng):
         raws = [raw(keys=[k for k in keys if rng.random() < .5]) for _ in range(L)]
         yield (build_scenario(rng, menu, ents, plan, L, init, cfg=make_cfg(rng, menu, ents, L, nact=2, keyed=True), raws=raws), 'random')
 
+def device_cases(tier, rng):
+    """exclusive instances with per-entity gamepad settings (a specific pad, or any), joining and leaving in any order:
+    each reads the device its own entity's configuration names, whatever was evaluated before it"""
+    from fractions import Fraction as F
+    for _ in range(200 if tier == 'thorough' else 30):
+        ids = Ids()
+        c = rng.choice([0, 2, 4, 6]); ents = [0, 1, 2]
+        cfg = {}
+        for e in ents:
+            cfg[(c, e)] = spec([action(ids, aid(0, 0, False, False), [bind(ids, pbutton(0), [PROBE], [])]),
+                                action(ids, aid(1, 0, False, False), [bind(ids, paxis(0), [PROBE], [])])], pad=rng.choice([0, 1, None, None]))
+        steps = [sop(spawn(e, [c] if rng.random() < .7 else [])) for e in ents]
+        steps.append(frame(raw(pads=[pad(0), pad(1)])))
+        for _ in range(rng.randint(5, 10)):
+            hot = rng.randrange(2)
+            steps.append(frame(raw(pads=[pad(p, [0] if rng.random() < .5 else [], [(0, rng.choice([F(1, 2), F(-1)]) if p == hot else F(0))]) for p in range(2)]), rand_dt(rng)))
+            if rng.random() < .3:
+                e = rng.choice(ents)
+                steps.append(sop(rng.choice([insert(e, c), remove(e, c), REBUILD])))
+        yield (scenario([c], ents, cfg, steps), 'per-entity-devices')
+
 def nontrivial(case, out):
     return 'OSpawn' in case or 'OInsert' in case
 
 STAGES = [dict(name='mirror', mode='app', coq='Check.C07c', cases=cases, nontrivial=nontrivial, shard=30,
                exhaustive={'thorough': False, 'quick': True},
                rule='two entities x {one exclusive, one shared type}: every sequence of length 2 (quick, 144) / 3 (thorough, 1728) over {insert, remove, despawn, spawn, rebuild, frame} x entity x type; '
-                    'random histories of 3-20 ops (direct and via Commands) over 2-4 types, 3 entities, 8-30 frames with key presses; after every step the lookup is compared with the component, '
+                    'random histories of 3-20 ops (direct and via Commands) over 2-4 types, 3 entities, 8-30 frames with key presses; exclusive instances with per-entity gamepad settings joining, leaving and being rebuilt next to two gamepads; after every step the lookup is compared with the component, '
                     'panics are captured, and what context_instance() was called for is compared with the join/leave history. non-trivial = some context is ever added; distinct = distinct scenario text')]
 CLAUSES = {1: 'ContextInstances::get::<C>(e).is_some() differs from World::get::<C>(e).is_some()', 2: 'context_instance() was (not) called where the join/leave/rebuild history requires',
-           3: 'a newly built instance does not start from fresh data', 8: 'an operation panicked', 9: 'malformed trace', 10: 'panic'}
+           3: 'a newly built instance does not start from fresh data', 4: 'an operation changed the polled data of an instance it neither built nor removed (e.g. a shared instance when one of several holders left)',
+           5: 'a binding of an exclusive instance did not read the device its own entity\'s configuration names', 8: 'an operation panicked', 9: 'malformed trace', 10: 'panic'}
 def describe(stage, clause): return CLAUSES.get(clause, 'clause %d' % clause)
 def matches_known(k, case, verdict): return False
 TRUSTED = TRUSTED_BASE + ['translation of ECS operations into OnAdd/OnRemove triggers modelled operationally, validated by the traces']
